@@ -3,6 +3,7 @@ import ast
 from collections import Counter
 
 from ..core import astutil as A
+from ..core import match as M
 from ..core.model import dotted
 
 META = {
@@ -90,11 +91,11 @@ def effects(fn, me="self", plan="plan"):
 
 
 def on_failure_path(fn, node):
-    """inside an `if l:`-style block that ends in `return <non-None>`"""
+    """inside an `if l:`-style block that returns a non-None value (a top-level `return <non-None>` of the block)"""
     for p in A.parents(node):
         if p is fn.node:
             break
-        if isinstance(p, ast.If) and p.body and isinstance(p.body[-1], ast.Return) and p.body[-1].value is not None and any(A.contains_node(s, node) for s in p.body):
+        if isinstance(p, ast.If) and any(isinstance(s, ast.Return) and s.value is not None for s in p.body) and any(A.contains_node(s, node) for s in p.body):
             return True
     return False
 
@@ -137,13 +138,22 @@ def run(ctx):
     ctx.floor("R1", 7)
     # failing replace backs out: the refusal path restores the old package and backtracks before returning
     rp = P.func(MOD, "replace_op.apply")
-    ea, _ = effects(rp, plan=rp.params()[1])
+    pl = rp.params()[1]
+    ea, _ = effects(rp, plan=pl)
     fail = [(k, a) for k, a, n in ea if on_failure_path(rp, n)]
-    ctx.check("R2", rp, ("backtrack", ("revert_point",)) in fail and any(k == "slot+" for k, a in fail), "replace-failure-backs-out",
+    # the revert point is found by its role (the local that receives plan.current_state), not by its spelling
+    rpm = sorted(M.find(rp.node, f"$rp = {pl}.current_state"), key=lambda m: m.node.lineno)
+    rpv = rpm[0]["rp"] if rpm else None
+    ctx.check("R2", rp, rpv is not None and ("backtrack", (rpv,)) in fail and any(k == "slot+" for k, a in fail), "replace-failure-backs-out",
               "a refused replacement re-inserts the old package and backtracks to the op's starting point before returning the conflict", f"replace_op.apply failure path effects: {fail}")
-    rpt = [v for t, v, _ in A.assignments(rp.node, "revert_point")]
-    ctx.check("R2", rp, bool(rpt) and A.unparse(rpt[0]).endswith(".current_state") and rp.node.body[0].lineno == A.stmt_of(rpt[0]).lineno, "revert-point-first",
-              "the revert point is taken before the first mutation")
+    # taken unconditionally, and nothing before it touches the plan or the op (inserted logging / no-op statements do not count)
+    first = False
+    if rpm:
+        st = rpm[0].node
+        early = [k for k, a, n in ea if n.lineno < st.lineno]
+        early += [A.unparse(c.func) for s_ in rp.node.body if s_.lineno < st.lineno for c in A.calls(s_) if A.unparse(c.func).split(".")[0] in (pl, "self")]
+        first = st in rp.node.body and not early and len(A.assignments(rp.node, rpv)) == 1
+    ctx.check("R2", rp, first, "revert-point-first", "the revert point is taken before the first mutation")
     ctx.floor("R2", 9)
 
     # ---- R3 backtrack ---------------------------------------------------------------------
@@ -186,8 +196,15 @@ def run(ctx):
     fs = [c for c in A.calls(rr.node) if A.call_attr(c) == "fill_slotting"]
     ctx.check("R4", rr, len(fs) == 1 and kw_of(fs[0], "force") == "self.force_old", "replace-revert-force-old", "the replaced package is re-inserted with the force flag recorded for it at apply time", node=fs[0] if fs else rr.node)
     rpa = P.func(MOD, "replace_op.apply")
-    fo = [A.unparse(v) for t, v, _ in A.assignments(rpa.node, "force_old")]
-    ctx.check("R4", rpa, fo == ["bool(plan.state.check_limiters(old))"], "force-old-recorded", "force_old records whether the old package conflicted with limiters when it was displaced")
+    pla = rpa.params()[1]
+    # force_old = bool(check_limiters(<the displaced package>)), recorded on the op; locals are bound by role
+    fo = M.find(rpa.node, f"$fo = bool({pla}.state.check_limiters($old))\nself.force_old = $fo")
+    fo_ok = len(fo) == 1 and len(A.assignments(rpa.node, fo[0]["fo"])) == 1
+    if not fo:
+        fo = M.find(rpa.node, f"self.force_old = bool({pla}.state.check_limiters($old))")
+        fo_ok = len(fo) == 1
+    fo_ok = fo_ok and M.has(rpa.node, f"{pla}.state.remove_slotting($old)", fo[0].env) and len([1 for t, v, _ in A.assignments(rpa.node) if A.self_attr(t, "self") == "force_old"]) == 1
+    ctx.check("R4", rpa, fo_ok, "force-old-recorded", "force_old records whether the old package conflicted with limiters when it was displaced")
     # unbind before rebind (keys of old and new package may be equal)
     for f in (rr, rpa):
         ef, _ = effects(f, plan=f.params()[1])
